@@ -10,7 +10,8 @@ MCSenders == {"s1", "s2"}
 
 Scn(d, lpv, scr, rc, pl, iv, dc) ==
   [dir |-> d, lpv |-> lpv, script |-> scr, rclose |-> rc, plan |-> pl, invs |-> iv, disc |-> dc,
-   net |-> "sim", loop |-> FALSE]
+   net |-> "sim", loop |-> FALSE, sib |-> FALSE]
+WithSib(s0) == [s0 EXCEPT !.sib = TRUE]
 OnNet(s0, n, l) == [s0 EXCEPT !.net = n, !.loop = l]
 
 PlanA == [s \in MCSenders |-> IF s = "s1" THEN <<1, 2>> ELSE <<3>>]
@@ -60,7 +61,10 @@ ScenariosQuickB ==
 ScenariosQuickC ==
   { OnNet(Scn("in", 70016, HS \o <<M("wrongmagic"), M("ping")>>, FALSE, Plan0, <<>>, FALSE), n, l) :
       n \in {"regtest", "test3"}, l \in BOOLEAN }
-ScenariosSafetyQuick == ScenariosQuickA \cup ScenariosQuickB \cup ScenariosQuickC
+\* a node dialling itself: the sibling's version write is in flight
+ScenariosQuickD ==
+  { WithSib(Scn(d, 70016, <<VerSelf, M("verack")>>, FALSE, PlanB, <<>>, FALSE)) : d \in {"in", "out"} }
+ScenariosSafetyQuick == ScenariosQuickA \cup ScenariosQuickB \cup ScenariosQuickC \cup ScenariosQuickD
 ScenariosLiveQuick ==
   { Scn(d, 70016, scr, FALSE, PlanB, <<>>, dc) : d \in {"in", "out"}, scr \in NoHandshake \cup {<<Ver(208)>>}, dc \in BOOLEAN }
   \cup { Scn("in", 70016, HS, FALSE, Plan0, <<>>, TRUE), Scn("out", 70016, HS \o <<M("malformed")>>, FALSE, Plan0, <<>>, FALSE) }
@@ -88,7 +92,8 @@ ThE == { Scn("in", 70016, HS, FALSE, pl, <<>>, TRUE) : pl \in {PlanA2, PlanS2} }
 \* tolerated only on regtest from localhost
 ThF == { OnNet(Scn("in", 70016, HS \o <<M(k), M("ping")>>, FALSE, PlanB, <<>>, TRUE), n, l) :
            k \in {"wrongmagic"}, n \in {"regtest", "test3"}, l \in BOOLEAN }
-ScenariosSafetyThorough == ThA \cup ThB \cup ThC \cup ThD \cup ThE \cup ThF
+ThG == ScenariosQuickD \cup { Scn("in", 70016, HS \o <<M(k), M("ping")>>, FALSE, PlanB, <<>>, TRUE) : k \in {"verack", "ver", "sendaddrv2"} }
+ScenariosSafetyThorough == ThG \cup ThA \cup ThB \cup ThC \cup ThD \cup ThE \cup ThF
 ScenariosTimers ==
   { Scn(d, 70016, scr, FALSE, PlanB, <<>>, FALSE) : d \in {"in", "out"}, scr \in {HS, <<Ver(70016)>>} }
 ScenariosLiveThorough ==
